@@ -1,5 +1,6 @@
 import Uquic.Oracle.Frame
 import Uquic.Model.ConnID.Routing
+import Uquic.Model.ConnID.PathManager
 import Uquic.Spec.CidMon
 
 open Uquic.Oracle Uquic.Model.ConnID Uquic.Spec.CidMon
@@ -93,6 +94,12 @@ def parseImplM (right : String) : ImplM :=
     aTok := (match a.getD 2 "-" with | "-" => none | t => some (unhx t)),
     q := q, p := p, per := natOf ((field ws "per=").getD "0"), rt := rt }
 
+def fmtPM : Option PathManager → String
+  | none => ""
+  | some pm =>
+    let b (x : Bool) : String := if x then "1" else "0"
+    s!" pm={pm.nextID}:" ++ fmtList (pm.paths.map fun p => s!"{p.id}@{p.addr},{p.lastT},{b p.validated}{b p.rcvdNonProbing}") "/"
+
 def fmtM (m : Manager) (r : Routing) : String :=
   let tk := match m.activeTok with | some t => hx t | none => "-"
   let q := fmtList (m.queue.map fun e => toString e.seq) "/"
@@ -166,6 +173,15 @@ structure St where
   gclosed : Bool := false
   mg : MGhost := {}
   gg : GGhost := {}
+  pm : Option PathManager := none
+  /-- ghost: paths a PATH_CHALLENGE was handed out for and that no operation has dropped yet: (path id, address) -/
+  pmLive : List (Nat × Nat) := []
+  /-- ghost: paths the connection migrated to (their connection ID legitimately stays allocated) -/
+  pmKept : List Nat := []
+  /-- the manager's path-probing entries after the previous operation, as printed by the implementation -/
+  prevP : List (Nat × Nat × Bytes) := []
+  /-- a direct GetConnIDForPath / RetireConnIDForPath op was used in this case (then path ids are not the pathManager's) -/
+  directPath : Bool := false
 
 def plainAdvertised : Nat :=
   (Uquic.Gen.ConnID.advertisedLimitCallSites.headD Uquic.Gen.Protocol.MaxActiveConnectionIDs).toNat
@@ -204,7 +220,7 @@ def finM (s : St) (m' : Manager) (head : String) (evs : List Ev) (implEvs : List
     (implHead : String := "") : St × StepOut :=
   let r' := evs.foldl Routing.applyM s.r
   let shown := if sameCanon then implEvs else evs
-  let model := s!"{head} ev={fmtEvs shown}" ++ fmtM m' r'
+  let model := s!"{head} ev={fmtEvs shown}" ++ fmtM m' r' ++ fmtPM s.pm
   -- monitors on the implementation's outputs
   let (lf, back) := ledger s.mg implEvs impl rcv
   let reg := implEvs.foldl applyTokEv s.mg.reg
@@ -219,7 +235,8 @@ def finM (s : St) (m' : Manager) (head : String) (evs : List Ev) (implEvs : List
     received := (match rcv with | some x => if s.mg.received.contains x then s.mg.received else x :: s.mg.received | none => s.mg.received),
     reg := reg, shared := shared, closed := closed, tainted := s.mg.tainted || back, lastPer := impl.per,
     dead := s.mg.dead || closed || implHead.startsWith "E:" || implHead.startsWith "PANIC" }
-  ({ s with m := some m', r := r', mg := mg' }, { model := model, tags := tags, fails := lf ++ tf ++ pf ++ extra })
+  ({ s with m := some m', r := r', mg := mg', prevP := impl.p },
+   { model := model, tags := tags, fails := lf ++ tf ++ pf ++ extra })
 
 def gFinish (s : St) (g' : Option Generator) (r' : Routing) (head : String) (evText : String) (gg' : GGhost)
     (implRight : String) (tags : List String) (extra : List Fail) : St × StepOut :=
@@ -235,6 +252,39 @@ def parseGEvNew (evs : String) : List (Nat × Bytes) :=
       | [sq, i] => some (natOf sq, unhx i)
       | _ => none
     else none
+
+def fieldOf (ws : List String) (key : String) : Option String := field ws key
+
+/-- path ids in the implementation's path manager (`pm=<next>:<id>@<addr>,<t>,<flags>/…`) -/
+def pmIDs (right : String) : List Nat :=
+  match field (words right) "pm=" with
+  | none => []
+  | some v =>
+    match v.splitOn ":" with
+    | [_, l] => if l == "-" then [] else (l.splitOn "/").map fun e => natOf ((e.splitOn "@").headD "0")
+    | _ => []
+
+/-- `probing_id_released`: a path that was dropped (PATH_CHALLENGE lost, evicted, or left behind by a migration) must
+    have given its connection ID back: no path-probing entry for it any more, and if it held one, this operation queued
+    RETIRE_CONNECTION_ID for its sequence number and unregistered its stateless reset token -/
+def releasedFails (s : St) (dropped : List Nat) (im : ImplM) (implEvs : List Ev) : List Fail :=
+  if s.directPath || s.mg.closed then [] else
+  dropped.flatMap fun k =>
+    (if im.p.any (·.1 == k) then
+      [("probing_id_released", "-", s!"path {k} was dropped but still holds a connection ID for path probing")] else []) ++
+    (match s.prevP.find? (·.1 == k) with
+     | some (_, sq, tk) =>
+       (if implEvs.contains (.retire sq) then [] else
+         [("probing_id_released", "-", s!"path {k} was dropped without RETIRE_CONNECTION_ID for its sequence number {sq}")]) ++
+       (if implEvs.contains (.rmTok tk) then [] else
+         [("probing_id_released", "-", s!"path {k} was dropped but the stateless reset token of its connection ID stays registered")])
+     | none => [])
+
+/-- every connection ID allocated for path probing belongs to a path the path manager still tracks (or migrated to) -/
+def allocatedFails (s : St) (im : ImplM) (implPaths : List Nat) (kept : List Nat) : List Fail :=
+  if s.directPath then [] else
+  (im.p.filter fun e => !implPaths.contains e.1 && !kept.contains e.1).map fun e =>
+    ("probing_id_released", "-", s!"a connection ID (sequence number {e.2.1}) is allocated to path {e.1}, which the path manager no longer tracks")
 
 def stepCore (s : St) (op impl : String) : St × StepOut :=
   let w := words op
@@ -333,6 +383,7 @@ def stepCore (s : St) (op impl : String) : St × StepOut :=
     finM s m' "ok" [] implEvs false im none false ["sentpkt"] []
   | ["path", p] =>
     let (s, m) := s.ensureM
+    let s := { s with directPath := true }
     let (m', evs, rid, res) := m.getConnIDForPath (natOf p)
     let head := match res, rid with
       | .panic, _ => "PANIC"
@@ -345,6 +396,7 @@ def stepCore (s : St) (op impl : String) : St × StepOut :=
     finM s m' head evs implEvs false im none false [tag] []
   | ["retirepath", p] =>
     let (s, m) := s.ensureM
+    let s := { s with directPath := true }
     let (m', evs, res) := m.retireConnIDForPath (natOf p)
     finM s m' (fmtRes res) evs implEvs false im none false
       [if res == .panic then "retirepath:panic" else if evs.isEmpty then "retirepath:none" else "retirepath:retire"] [] implHead
@@ -366,6 +418,63 @@ def stepCore (s : St) (op impl : String) : St × StepOut :=
     let (s, m) := s.ensureM
     let (m', res) := m.changeInitialConnID (unhx id)
     finM s m' (fmtRes res) [] implEvs false im none false ["chinit:" ++ fmtRes res] []
+  | ["pm.pkt", addr, t, ch, np] =>
+    let (s, m) := s.ensureM
+    let pm := s.pm.getD {}
+    let addr := natOf addr
+    let (pm', m', evs, out, res) := handlePacket pm m addr (intOf t) (ch == "1") (np == "1")
+    let b (x : Bool) : String := if x then "1" else "0"
+    let head := match res with
+      | .panic => "PANIC"
+      | _ => s!"id={match out.connID with | some i => hx i | none => "none"} ch={match out.challenge with | some k => toString k | none => "-1"} resp={b out.response} sw={b out.shouldSwitch}"
+    -- ghost: a new path (from the implementation's answer); paths that vanished from the path manager were evicted
+    let implCh := (fieldOf lw "ch=").bind String.toNat?
+    let implIDs := pmIDs right
+    let evicted := (s.pmLive.filter fun ka => !implIDs.contains ka.1).map (·.1)
+    let live' := (s.pmLive.filter fun ka => implIDs.contains ka.1) ++ (match implCh with | some k => [(k, addr)] | none => [])
+    let fails := releasedFails s evicted im implEvs ++ allocatedFails s im implIDs s.pmKept
+    let tag := match res with
+      | .panic => "pm.pkt:panic"
+      | _ => if out.challenge.isSome then (if pm'.paths.length ≤ pm.paths.length then "pm.pkt:new-evict" else "pm.pkt:new")
+             else if out.connID.isSome then "pm.pkt:respond"
+             else if pm.paths.any (fun p => p.addr == addr) then "pm.pkt:known"
+             else if pm.paths.length ≥ maxPaths then "pm.pkt:full" else "pm.pkt:no-id"
+    finM { s with pm := some pm', pmLive := live' } m' head evs implEvs false im none false
+      ([tag] ++ (if out.shouldSwitch then ["pm.pkt:should-switch"] else [])) fails implHead
+  | ["pm.lost", k] =>
+    let k := natOf k
+    if implHead == "skip" then skip else
+    let (s, m) := s.ensureM
+    let pm := s.pm.getD {}
+    let (pm', m', evs, res) := onLost pm m k
+    let dropped := if s.pmLive.any (·.1 == k) then [k] else []
+    let fails := releasedFails s dropped im implEvs ++ allocatedFails s im (pmIDs right) s.pmKept
+    finM { s with pm := some pm', pmLive := s.pmLive.filter (·.1 ≠ k) } m' (fmtRes res) evs implEvs false im none false
+      [if res == .panic then "pm.lost:panic" else if evs.isEmpty then "pm.lost:no-id" else "pm.lost:retire"] fails implHead
+  | ["pm.acked", _] =>
+    if implHead == "skip" then skip else
+    let (s, m) := s.ensureM
+    finM { s with pm := some (s.pm.getD {}) } m "ok" [] implEvs false im none false ["pm.acked"] (allocatedFails s im (pmIDs right) s.pmKept)
+  | ["pm.lostresp"] =>
+    let (s, m) := s.ensureM
+    finM { s with pm := some (s.pm.getD {}) } m "ok" [] implEvs false im none false ["pm.lostresp"] (allocatedFails s im (pmIDs right) s.pmKept)
+  | ["pm.resp", k] =>
+    if implHead == "skip" then skip else
+    let (s, m) := s.ensureM
+    let pm' := handlePathResponse (s.pm.getD {}) (natOf k)
+    finM { s with pm := some pm' } m "ok" [] implEvs false im none false ["pm.resp"] (allocatedFails s im (pmIDs right) s.pmKept)
+  | ["pm.switch", addr] =>
+    let (s, m) := s.ensureM
+    let pm := s.pm.getD {}
+    let addr := natOf addr
+    let (pm', m', evs, res) := switchToPath pm m addr
+    -- every other path is dropped; the path migrated to keeps its connection ID
+    let ok := implHead == "ok"
+    let dropped := if ok then (s.pmLive.filter (·.2 ≠ addr)).map (·.1) else []
+    let kept' := if ok then s.pmKept ++ (s.pmLive.filter (·.2 == addr)).map (·.1) else s.pmKept
+    let fails := releasedFails s dropped im implEvs ++ allocatedFails s im (pmIDs right) kept'
+    finM { s with pm := some pm', pmLive := if ok then [] else s.pmLive, pmKept := kept' } m' (fmtRes res) evs implEvs false im none false
+      [if res == .panic then "pm.switch:panic" else if evs.isEmpty then "pm.switch:nothing" else "pm.switch:retire"] fails implHead
   | ["istok", t] =>
     let (s, m) := s.ensureM
     let b := m.isActiveStatelessResetToken (tok16 (unhx t))
